@@ -48,5 +48,5 @@ Spec == Init /\ [][Next]_bvars /\ WF_bvars(Next)
 
 \* sanity: an open path delivers (non-vacuity of the blocked => not delivered implication)
 OpenPathDelivers ==
-    (up = AllUp /\ pkt.dst = "B" /\ ~AclDenies(pkt)) => <>(loc = "B")
+    (up = AllUp /\ pkt.dst = "B" /\ ~AclDenies(pkt) /\ ~NeverRouted(pkt)) => <>(loc = "B")
 =============================================================================
